@@ -164,10 +164,11 @@ EditsOf(kind) ==
     [] kind = "AttachHeights" -> {[k |-> "AttachHeights", s |-> s] : s \in 1..4}     \* 1: instrument heights, 2: both, 3: small target heights only, 4: small instrument heights only
     [] kind = "MakeFree" -> {[k |-> "MakeFree", s |-> s] : s \in 1..6}
     [] kind = "Isolate" -> {[k |-> "Isolate", s |-> s] : s \in 1..5}      \* 1, 2: sight in the first quadrant (2: with a height difference); 3, 4: second / fourth quadrant; 5: the single element is an angle whose foresight is the new point
-    [] kind = "WeakPoint" -> {[k |-> "WeakPoint", s |-> s] : s \in 1..2}
+    [] kind = "WeakPoint" -> {[k |-> "WeakPoint", s |-> s] : s \in 1..4}
          \* a further point tied to the network by observations of practically no weight (standard deviation 20 m): its standard deviation exceeds
          \* gama-local's limit of 10 m, the point is removed ("huge covariance") and the network is adjusted again without it. 1: the point and its
-         \* observations come first (its unknowns are numbered first and every other unknown is renumbered after the removal), 2: they come last
+         \* observations come first (its unknowns are numbered first and every other unknown is renumbered after the removal), 2: they come last;
+         \* 3, 4: the same with a standard deviation of 200 m, i.e. a weight of 2.5e-9 relative to sigma-apr 10 - below sqrt(machine epsilon)
     [] kind = "LoneSet" -> {[k |-> "LoneSet", s |-> s] : s \in 1..4}
          \* a further direction set whose readings all go to ONE target (1: a single reading, 2: two readings to the second point, 3: three readings to the
          \* last point, 4: two readings taken at the last point): such a set carries no information beyond its own orientation and gama-local excludes it
